@@ -61,6 +61,7 @@ func (s *State) evalAssignment(right object.Object, node *ast.InfixExpression) o
 }
 
 func (s *State) evalIndexAssigment(which ast.Node, index, value object.Object) object.Object {
+	index = object.CopyRegister(index) // the key is the current value of an integer parameter/loop variable, not its register.
 	if reg, ok := which.(*object.Register); ok { // integer parameter or loop variable: same error as without registers.
 		return s.Errorf("index assignment to %s of unexpected type %s", reg.Literal(), object.INTEGER.String())
 	}
